@@ -1129,7 +1129,38 @@ func callBuiltin(caller *frame, callpos token.Pos, fn *ssa.Builtin, args []value
 		return &caller.defers
 	}
 
-	panic("unknown built-in: " + fn.Name())
+	switch fn.Name() {
+	// zero-copy string/[]byte idioms of the standard library (unsafe package builtins)
+	case "StringData":
+		return strdata{args[0]}
+	case "SliceData":
+		return slicedata{args[0].([]value)}
+	case "String":
+		n := int(asInt64(args[1]))
+		switch p := args[0].(type) {
+		case strdata:
+			return mkstr(strElems(p.s)[:n])
+		case slicedata:
+			return mkstr(p.b[:n])
+		case *value:
+			if p == nil && n == 0 {
+				return ""
+			}
+		}
+	case "Slice":
+		n := int(asInt64(args[1]))
+		switch p := args[0].(type) {
+		case strdata:
+			return append([]value{}, strElems(p.s)[:n]...)
+		case slicedata:
+			return p.b[:n]
+		case *value:
+			if p == nil && n == 0 {
+				return []value(nil)
+			}
+		}
+	}
+	panic(infraError{"unknown built-in: " + fn.Name()})
 }
 
 func rangeIter(x value, t types.Type) iter {
@@ -1616,3 +1647,9 @@ func zeroLike(v value) value {
 	}
 	panic(infraError{fmt.Sprintf("zeroLike %T", v)})
 }
+
+
+// strdata / slicedata stand for unsafe.StringData(s) / unsafe.SliceData(b): only the round trips
+// back through unsafe.String / unsafe.Slice are supported.
+type strdata struct{ s value }
+type slicedata struct{ b []value }
